@@ -25,7 +25,7 @@
 (* (!isNewConn && retry <= MaxRetry), "any" = free (trace validation: the  *)
 (* contract is the invariants, not the code's constants).                  *)
 (* Deviation switches: RandomSelect (D2: closeNotify arm may win over a    *)
-(* delivered reply), LockInOnce (D12: closeWithErr takes t.m inside        *)
+(* delivered reply), LockInOnce (D15: closeWithErr takes t.m inside        *)
 (* closeOnce.Do while Close holds t.m and calls closeOnce.Do).             *)
 (***************************************************************************)
 EXTENDS Integers, Sequences, FiniteSets, TLC, Json
@@ -37,7 +37,7 @@ CONSTANTS
     MaxRetry,      \* the code's constant (2)
     AttemptBound,  \* the contract's bound on attempts / connections per query (4)
     RandomSelect,  \* deviation D2
-    LockInOnce,    \* deviation D12 (pinned order)
+    LockInOnce,    \* deviation D15 (pinned order)
     Dev,           \* set of further deviation switches (non-vacuity configs only), {} in every real config
     MaxFaults,     \* bound on Kill actions
     Kinds,         \* subset of {"eof", "silent", "reset"}
